@@ -18,6 +18,12 @@ type SchemaCache struct {
 	// refTo and referencePackage are only called from within a build.
 	mu       sync.Mutex
 	packages map[string]*Package
+
+	// created lists the refs added to the cache by the Schema call in
+	// progress. When that build fails they are all removed again, so that a
+	// failed build leaves no unlinked (or half linked) refs behind for later
+	// callers to trip over.
+	created []*RefSchema
 }
 
 func NewSchemaCache() *SchemaCache {
@@ -47,6 +53,10 @@ func (sc *SchemaCache) Schema(src protoreflect.MessageDescriptor) (RootSchema, e
 		Schema:  nameInPackage,
 	}
 	schemaPackage.Schemas[nameInPackage] = placeholder
+	sc.created = append(sc.created[:0], placeholder)
+	defer func() {
+		sc.created = nil
+	}()
 
 	msgOptions := proto.GetExtension(src.Options(), ext_j5pb.E_Message).(*ext_j5pb.MessageOptions)
 	isOneofWrapper := isOneofWrapper(src, msgOptions)
@@ -61,12 +71,26 @@ func (sc *SchemaCache) Schema(src protoreflect.MessageDescriptor) (RootSchema, e
 		// interface. Reset it, so that later lookups report the unlinked ref
 		// instead of handing out a nil schema.
 		placeholder.To = nil
+		sc.discardCreated()
 		return nil, err
 	}
 	if placeholder.To.FullName() != placeholder.FullName() {
-		return nil, fmt.Errorf("schema %q has wrong name %q", placeholder.FullName(), placeholder.To.FullName())
+		err := fmt.Errorf("schema %q has wrong name %q", placeholder.FullName(), placeholder.To.FullName())
+		sc.discardCreated()
+		return nil, err
 	}
 	return placeholder.To, nil
+}
+
+// discardCreated removes everything the failed build added to the cache.
+// Schemas which were already cached before the build started cannot refer to
+// any of it, and nothing built later will find a leftover placeholder.
+func (sc *SchemaCache) discardCreated() {
+	for _, ref := range sc.created {
+		ref.To = nil
+		delete(ref.Package.Schemas, ref.Schema)
+	}
+	sc.created = nil
 }
 
 func (sc *SchemaCache) refTo(pkg, schema string) (*RefSchema, bool) {
@@ -80,6 +104,7 @@ func (sc *SchemaCache) refTo(pkg, schema string) (*RefSchema, bool) {
 		Schema:  schema,
 	}
 	refPackage.Schemas[schema] = refSchema
+	sc.created = append(sc.created, refSchema)
 
 	return refSchema, false
 }
